@@ -32,6 +32,10 @@ pub struct Workload {
     pub setup: Vec<String>,
     pub h: History,
     pub closed_gates: Vec<String>,
+    /// checkpoint right after the schema statements (all files synced once), DML only afterwards:
+    /// from there on durability rests on the WAL alone
+    #[serde(default)]
+    pub ckpt_schema: bool,
 }
 
 #[derive(Debug, Clone, Serialize, Deserialize)]
@@ -96,9 +100,27 @@ pub fn child_main(args_path: &str) -> ! {
             }
         }
     }
+    let mut wdb = wdb;
+    if args.w.ckpt_schema {
+        // close() syncs every file; after the reopen only the WAL protects what follows
+        let ok = wdb.reopen().is_ok();
+        if ok {
+            for s in &args.w.setup {
+                let _ = wdb.exec(s);
+            }
+        }
+        emit(&model, &wdb, "REOPEN", "-- close + reopen after schema", ok, idx);
+        idx += 1;
+        if !ok {
+            unsafe { libc::_exit(4) }
+        }
+    }
     for op in &args.w.h.ops {
         let Some(r) = model.resolve(op) else { continue };
         if r.tags.iter().any(|t| gates.contains(*t)) {
+            continue;
+        }
+        if args.w.ckpt_schema && !matches!(r.kind, "INSERT" | "UPDATE" | "DELETE" | "BEGIN" | "COMMIT" | "ROLLBACK" | "SAVEPOINT" | "ROLLBACK_TO" | "RELEASE" | "CHECKPOINT" | "PRAGMA_CHECKPOINT") {
             continue;
         }
         let ok = if let Some(l) = r.lifecycle {
